@@ -642,6 +642,40 @@ func (e *Env) call(n *SNode) SV {
 			x.assumeGlobal(B.Or(differs, eq), "definition of fileSeg, instantiated")
 		}
 		return svTerm(eq)
+	case "deref":
+		// deref(p): the value a pointer (or a pointer boxed in an interface, as in
+		// binary.Read(r, order, &x)) points to, in the current state
+		a := e.eval(n.Args[0])
+		if a.V == nil {
+			e.fail("deref needs a Go value")
+		}
+		var pt *Term
+		var elem types.Type
+		switch u := a.V.T.Underlying().(type) {
+		case *types.Pointer:
+			pt, elem = a.V.L[0], u.Elem()
+		case *types.Interface:
+			pt = a.V.L[1]
+			if a.V.L[0].IsLit() {
+				if ct := x.typeFromID(a.V.L[0].Val.Int64()); ct != nil {
+					if p, ok := ct.Underlying().(*types.Pointer); ok {
+						elem = p.Elem()
+					}
+				}
+			}
+		}
+		if pt == nil || elem == nil {
+			e.fail("deref: not a pointer of statically known type")
+		}
+		l := x.locOf(pt, elem)
+		if l.Kind == LCell {
+			v, ok := e.st.cells[l.Cell]
+			if !ok {
+				e.fail("deref: cell not live")
+			}
+			return svValue(v)
+		}
+		return svValue(x.load(e.st, l, elem))
 	case "str":
 		// str(b): the string conversion of a byte slice
 		a := e.eval(n.Args[0])
